@@ -10,6 +10,9 @@ sys.path.insert(0, sys.argv[1] if len(sys.argv) > 1 else "/repo")
 from windpyutils.files import FilePool  # noqa: E402
 
 if __name__ == "__main__":
+    if not os.path.exists("/dev/full"):
+        print("no /dev/full on this platform: nothing to demonstrate")
+        sys.exit(0)
     with tempfile.TemporaryDirectory() as d:
         paths = ["/dev/full", os.path.join(d, "a.txt"), os.path.join(d, "b.txt")]
         handles = []
